@@ -199,7 +199,8 @@ def do_check(ctx, args, t0):
                 break
     # replay violations on the real code
     rc = 0
-    replay_dir = os.path.join(ROOT, 'evidence', 'replays', prop)
+    scratch = os.path.realpath(ctx.repo) != '/repo'    # a scratch copy (self-test / mutation run): never touch the committed evidence
+    replay_dir = os.path.join('/var/tmp/vf-scratch-replays' if scratch else os.path.join(ROOT, 'evidence', 'replays'), prop)
     shutil.rmtree(replay_dir, ignore_errors=True)
     lines = []
     seen_k = set()
@@ -279,7 +280,7 @@ def do_check(ctx, args, t0):
         'wall_s': round(wall, 2),
         'violations': len(reported),
     }
-    if not args.jobs:
+    if not args.jobs and not scratch:
         os.makedirs(os.path.dirname(evid_path), exist_ok=True)
         with open(evid_path, 'w') as f:
             json.dump(ev, f, indent=1)
